@@ -14,7 +14,8 @@ SPEC = {
     "files": ["src/payload/delta.rs"],
     "harnesses": {
         "quick": ["c11_counts_0_1", "c11_counts_1_0", "c11_counts_1_1", "c11_counts_2_1", "c11_counts_1_2", "c11_counts_2_2", "c11_items_1_1"],
-        "thorough": ["c11_items_0_1", "c11_items_1_0", "c11_items_2_1", "c11_items_1_2", "c11_items_2_2", "c11_counts_3_2", "c11_counts_2_3", "c11_counts_3_3"],
+        # c11_items_2_1 / 1_2 / 2_2 end with a solver memory error (0 failed checks, status ERROR) under 14 GB: in no tier
+        "thorough": ["c11_items_0_1", "c11_items_1_0", "c11_counts_3_2", "c11_counts_2_3", "c11_counts_3_3"],
     },
     "harness_file": {"*": ("delta.rs", "src/payload/delta.rs")},
     "timeout": {"quick": 900, "thorough": 7200},
@@ -25,7 +26,7 @@ SPEC = {
 def run(res, tier):
     res.functions += ["routinator::payload::delta::StandardDelta::<u8>::{construct, push, extend, is_empty}"]
     res.bounds += [
-        "old/new data sets of exactly (0,1) (1,0) (1,1) (2,1) (1,2) items (quick) and (2,2) (3,2) (2,3) (3,3) (thorough), "
+        "old/new data sets of exactly (0,1) (1,0) (1,1) (2,1) (1,2) (2,2) items (quick) and (3,2) (2,3) (3,3) (thorough, counts), "
         "contents fully symbolic (strictly ascending u8); larger sets outside the bound",
         "one instantiation of the generic body: P = u8 (RouteOrigin / RouterKey share the body and differ in Ord only)",
     ]
